@@ -6,6 +6,7 @@ import Tw.Proofs.Packet7Headers
 import Tw.Proofs.Packet7Write
 import Tw.Proofs.Packet6Chunks
 import Tw.Proofs.Packet7Chunks
+import Tw.Proofs.HuffmanTable
 
 /-!
 # C05 — packet encoding and decoding are mutually inverse
@@ -261,5 +262,34 @@ theorem v6_chunk_written_iff_fits (d : List UInt8) (v : Option (Nat × Bool)) (c
 example : Tw.Packet7.writeChunkList [(List.replicate 16 0, none), ([7], some (1023, true))] 100 [] =
     .ok ([0x00, 0x10] ++ List.replicate 16 0 ++ [0xc0, 0xc1, 0xff, 7]) := by decide
 example : Tw.Packet7.ChunkOk (List.replicate 16 0) none := ⟨by decide, by intro q r h; cases h⟩
+
+/-! ## the whole-packet theorems for the built-in table, without any hypothesis about the Huffman codec
+
+C07 (`Tw.Huffman.decompress_compress`, `Tw.Huffman.wellFormed_table`: kernel-checked well-formedness of
+the regenerated table `Tw.Gen.Huffman.table`) discharges `HuffmanRoundTrip`. -/
+
+theorem huffmanRoundTrip6_table : Tw.Packet6.HuffmanRoundTrip Tw.Gen.Huffman.table :=
+  fun xs cap h => Tw.Huffman.decompress_compress _ Tw.Huffman.wellFormed_table false xs cap h
+
+theorem huffmanRoundTrip7_table : Tw.Packet7.HuffmanRoundTrip Tw.Gen.Huffman.table :=
+  fun xs cap h => Tw.Huffman.decompress_compress _ Tw.Huffman.wellFormed_table false xs cap h
+
+/-- **C05 for 0.6 with the real table**: every `Valid` packet is written to at most `MAX_PACKETSIZE` bytes
+that read back (true token mode) as the same value with `expectedWarnings`, whichever compression branch
+the writer takes. -/
+theorem v6_write_read_roundtrip_table (p : Tw.Packet6.Packet) (hv : Tw.Packet6.Valid p) (cap scap : Nat)
+    (hcap : Tw.Gen.Packet6.MAX_PACKETSIZE ≤ cap) (hs : Tw.Gen.Packet6.MAX_PACKETSIZE ≤ scap) :
+    ∃ bs, Tw.Packet6.write Tw.Gen.Huffman.table p cap = .ok bs ∧ bs.length ≤ Tw.Gen.Packet6.MAX_PACKETSIZE ∧
+      ∃ r, Tw.Packet6.read Tw.Gen.Huffman.table bs (some p.hasToken) (some scap) = .ok r ∧ r.pkt = p ∧
+        r.warns = Tw.Packet6.expectedWarnings p :=
+  v6_write_read_roundtrip _ huffmanRoundTrip6_table p hv cap scap hcap hs
+
+/-- **C05 for 0.7 with the real table**. -/
+theorem v7_write_read_roundtrip_table (p : Tw.Packet7.Packet) (hv : Tw.Packet7.Valid p) (cap scap : Nat)
+    (hcap : Tw.Gen.Packet7.MAX_PACKETSIZE ≤ cap) (hs : Tw.Gen.Packet7.MAX_PACKETSIZE ≤ scap) :
+    ∃ bs, Tw.Packet7.write Tw.Gen.Huffman.table p cap = .ok bs ∧ bs.length ≤ Tw.Gen.Packet7.MAX_PACKETSIZE ∧
+      ∃ r, Tw.Packet7.read Tw.Gen.Huffman.table bs (some scap) = .ok r ∧ r.pkt = p ∧
+        r.warns = Tw.Packet7.expectedWarnings p :=
+  v7_write_read_roundtrip _ huffmanRoundTrip7_table p hv cap scap hcap hs
 
 end Tw.Props.C05
